@@ -148,7 +148,7 @@ JOBS = [
                                              'vegas_pdf_bin_left', 'vegas_pdf_bins', 'vegas_pdf_dimensions'] + _F_IT,
          specs=['vegas_iteration', 'vegas_icdf_abs', 'accumulator_nodist_invoke', 'accumulator_nodist_result', 'accumulate'],
          entry='h_vegas_iteration', enforce='vegas_iteration', replace=['accumulator_nodist_invoke', 'accumulator_nodist_result', 'vegas_icdf'],
-         af=['accumulator_nodist_invoke', 'vegas_icdf', 'vegas_iteration'], split='always', split_workers=8,
+         af=['accumulator_nodist_invoke', 'vegas_icdf', 'vegas_iteration'], split='always', split_workers=14, solvers=['cadical', 'cvc5'], timeout=dict(quick=600, thorough=1800),
          structs=_ST_RES + [dict(cls='vegas_pdf', cls_targs=['double']), dict(unit='drivers', cls='vegas_point'), dict(unit='drivers', cls='vegas_result')],
          preludes=['opaque.h'], late_preludes=['stubs.h'], globals=_GHOSTS,
          defines=['VP_DIMSMAX=1024', 'VP_BINSMAX=1048576', 'VP_CALLSMAX=1099511627776'], props=['C02', 'C10', 'C17', 'C06', 'C19'],
